@@ -693,7 +693,39 @@ func ruleReadBatchCopy(e *Engine, r *Report) {
 				return
 			}
 			n++
-			r.check(isFreshSliceValue(st.Val, 0), "OWN-readbatch-copy", "readBatch.requests stored in "+fname(fn)+" #"+itoa(n), e.ipos(in),
+			// appending to the batch's own slice keeps ownership (the slice was fresh when stored)
+			own := false
+			if c, ok := st.Val.(*ssa.Call); ok {
+				if b, ok := c.Call.Value.(*ssa.Builtin); ok && b.Name() == "append" && len(c.Call.Args) > 0 && fieldV(reqsF)(c.Call.Args[0]) {
+					own = true
+				}
+			}
+			// ... but a batch is filled exactly once, when it is created: a store into a
+			// batch value that was read back from the table extends a round that is
+			// already in flight (its index was captured before the new requests arrived)
+			if fa, ok := st.Addr.(*ssa.FieldAddr); ok {
+				if al := rootAlloc(fa); al != nil {
+					fromTable := false
+					for _, sv := range storesInto(al) {
+						if e.dependsOn(sv, func(v ssa.Value) bool {
+							switch x := v.(type) {
+							case *ssa.Lookup:
+								f, _, ok := loadedField(x.X)
+								return ok && f.Name() == "batches"
+							case *ssa.Range:
+								f, _, ok := loadedField(x.X)
+								return ok && f.Name() == "batches"
+							}
+							return false
+						}, 0) {
+							fromTable = true
+						}
+					}
+					r.check(!fromTable, "WMW-readbatch-once", "readBatch.requests stored in "+fname(fn)+" #"+itoa(n)+" into a newly created batch", e.ipos(in),
+						"requests join a batch only when it is created under a fresh ctx", "requests are added to a batch that is already registered (and possibly already sent to the leader): they would be released with a read index captured before they were issued")
+				}
+			}
+			r.check(own || isFreshSliceValue(st.Val, 0), "OWN-readbatch-copy", "readBatch.requests stored in "+fname(fn)+" #"+itoa(n), e.ipos(in),
 				"the batch owns a fresh copy of the request slice",
 				"readBatch.requests is assigned "+e.describeValue(st.Val)+", which is not a freshly allocated slice: the batch aliases the read-index queue's reused buffer and later reads overwrite its slots")
 		})
@@ -2751,4 +2783,364 @@ func isStringSlice(t types.Type) bool {
 	}
 	b, ok := s.Elem().Underlying().(*types.Basic)
 	return ok && b.Kind() == types.String
+}
+
+// ruleSessionTableOnly (C05): a session handed out by the LRU session table
+// comes out of the ordered cache in the same call (never from a remembered
+// pointer: eviction and snapshot load replace the cache behind it), and the
+// serialized form written into a snapshot is produced by traversing the
+// cache in the same call (never a remembered encoding).
+func ruleSessionTableOnly(e *Engine, r *Report) {
+	lruT := e.Named("internal/rsm", "lrusession")
+	if lruT == nil {
+		r.undecided("ANCHOR", "internal/rsm.lrusession", "type not found")
+		return
+	}
+	// methods of the ordered cache (a dependency outside the module): by package and name
+	cacheCall := func(c ssa.CallInstruction, name string) bool {
+		sc := c.Common().StaticCallee()
+		return sc != nil && sc.Name() == name && sc.Pkg != nil && strings.HasSuffix(sc.Pkg.Pkg.Path(), "goutils/cache") && sc.Signature.Recv() != nil
+	}
+	isLRUMethod := func(f *ssa.Function) bool {
+		if f.Signature.Recv() == nil {
+			return false
+		}
+		return recvTypeName(f.Signature.Recv().Type()) == "internal/rsm.lrusession"
+	}
+	n := 0
+	for _, fn := range e.ScopeFuncs() {
+		if !isLRUMethod(fn) || !e.IsLive(fn) {
+			continue
+		}
+		res := fn.Signature.Results()
+		if res.Len() == 0 {
+			continue
+		}
+		pt, ok := res.At(0).Type().(*types.Pointer)
+		if !ok {
+			continue
+		}
+		if nt, ok := pt.Elem().(*types.Named); !ok || nt.Obj().Name() != "Session" {
+			continue
+		}
+		forEachInstr(fn, func(in ssa.Instruction) {
+			ret, ok := in.(*ssa.Return)
+			if !ok {
+				return
+			}
+			v := retOperand(ret, 0)
+			if isNilConst(v) {
+				return
+			}
+			n++
+			fromCache := e.dependsOn(v, func(x ssa.Value) bool {
+				c, ok := x.(*ssa.Call)
+				if !ok {
+					return false
+				}
+				if cacheCall(c, "Get") {
+					return true
+				}
+				// delegated to another lookup of the same table
+				sc := c.Call.StaticCallee()
+				return sc != nil && sc != fn && isLRUMethod(sc) && sc.Signature.Results().Len() > 0 && types.Identical(sc.Signature.Results().At(0).Type(), res.At(0).Type())
+			}, 0)
+			r.check(fromCache, "DEP-session-lookup", "session returned by "+fname(fn)+" #"+itoa(n)+" comes out of the ordered cache", e.ipos(in),
+				"every lookup consults the table as it is now", "a session is handed out without consulting the ordered cache (a remembered pointer): after an eviction or a snapshot load it is a session the table no longer holds")
+		})
+	}
+	r.floor("DEP-session-lookup-returns", n, 1)
+	if save := r.need("(*internal/rsm.lrusession).save"); save != nil {
+		trav := e.throughHelpers(func(c ssa.CallInstruction) bool { return cacheCall(c, "OrderedDo") })
+		res := e.findPath(save, nil, func(in ssa.Instruction) bool { return e.isSuccessReturn(in) }, trav, nil)
+		w := []string{}
+		if res.Found {
+			w = res.Trace(e)
+		}
+		r.check(!res.Found, "MPT-session-save-traverses", "lrusession.save traverses the table on every successful path", e.pos(save.Pos()),
+			"what is written into the snapshot is the table as it is now", "lrusession.save can succeed without traversing the session table (a remembered encoding): the snapshot can carry a session table older than the state machine image next to it", w...)
+	}
+}
+
+// ruleNotifyApplied (C07, C03): what the raft core is told as "last applied"
+// is the state machine's applied index, not a cursor of what was merely
+// handed to the apply queue: the core refuses to campaign while a committed
+// membership change is not applied, and judges that by this value.
+func ruleNotifyApplied(e *Engine, r *Report) {
+	notify := r.need("(*internal/raft.Peer).NotifyRaftLastApplied")
+	getLA := r.need("(*internal/rsm.StateMachine).GetLastApplied")
+	if notify == nil || getLA == nil {
+		return
+	}
+	fromSM := func(v ssa.Value) bool {
+		return e.dependsOn(v, func(x ssa.Value) bool {
+			c, ok := x.(*ssa.Call)
+			if !ok {
+				return false
+			}
+			if e.CallsTo(c, getLA) {
+				return true
+			}
+			for _, g := range e.Callees(c) {
+				if p := fnPkg(g); p != nil && inModule(p) && e.returnDependsOn(g, e.callV(getLA), 0) {
+					return true
+				}
+			}
+			return false
+		}, 0)
+	}
+	n := 0
+	for _, s := range e.CallerSites(notify) {
+		if !e.IsLive(outermostFn(s.Parent())) {
+			continue
+		}
+		args := s.Common().Args
+		if len(args) < 2 {
+			continue
+		}
+		n++
+		v := args[len(args)-1]
+		ok := fromSM(v)
+		if !ok {
+			// a field that is only ever assigned the state machine's applied index
+			if f, _, isF := loadedField(v); isF {
+				ws := e.FieldWrites(f)
+				ok = len(ws) > 0
+				for _, w := range ws {
+					if w.Kind == "init" {
+						continue
+					}
+					if !fromSM(w.Val) {
+						ok = false
+					}
+				}
+			}
+		}
+		r.check(ok, "DEP-notify-applied", "NotifyRaftLastApplied argument in "+fname(s.Parent()), e.ipos(s),
+			"the raft core learns the state machine's applied index", "the raft core is told "+e.describeValue(v)+" as last applied, which is not the state machine's applied index: it may campaign while a committed membership change is still unapplied")
+	}
+	r.floor("DEP-notify-applied", n, 1)
+}
+
+// ruleOpenSetsOnDiskIndex (C08): opening an on-disk state machine records
+// the index it reports both as the initial and as the current on-disk index:
+// a snapshot streamed before the next update must advertise what the sender
+// really has on disk.
+func ruleOpenSetsOnDiskIndex(e *Engine, r *Report) {
+	open := r.need("(*internal/rsm.StateMachine).OpenOnDiskStateMachine")
+	mOpen := r.needMethod("internal/rsm", "IManagedStateMachine", "Open")
+	if open == nil || mOpen == nil {
+		return
+	}
+	for _, fnm := range []string{"onDiskInitIndex", "onDiskIndex"} {
+		fld := r.needField("internal/rsm", "StateMachine", fnm)
+		if fld == nil {
+			continue
+		}
+		isStore := func(in ssa.Instruction) bool {
+			st, ok := in.(*ssa.Store)
+			if !ok {
+				return false
+			}
+			f, _, ok := fieldOfAddr(st.Addr)
+			if !ok || f != fld {
+				return false
+			}
+			return e.dependsOn(st.Val, func(x ssa.Value) bool {
+				c, ok := x.(*ssa.Call)
+				return ok && e.IsMethodCall(c, mOpen)
+			}, 0)
+		}
+		res := e.findPath(open, nil, func(in ssa.Instruction) bool { return e.isSuccessReturn(in) }, isStore, nil)
+		r.check(!res.Found, "MPT-open-ondisk-index", "OpenOnDiskStateMachine records the opened index in "+fnm, e.pos(open.Pos()),
+			"set from Open()'s result on every successful path", "OpenOnDiskStateMachine can succeed without setting "+fnm+" from the index Open() returned: snapshots streamed before the next update advertise a wrong on-disk index and the receiver skips recovery", res.Trace(e)...)
+	}
+}
+
+// ruleReplaySetsState (C03, C04): on restart the persisted hard state (term,
+// vote, commit) reaches the log reader whenever there is one, whatever else
+// the store holds - a replica that voted before it received any entry must
+// come back with that vote.
+func ruleReplaySetsState(e *Engine, r *Report) {
+	replay := r.need("(*dragonboat.node).replayLog")
+	setState := r.need("(*internal/logdb.LogReader).SetState")
+	readRS := r.needMethod("raftio", "ILogDB", "ReadRaftState")
+	isEmpty := r.need("raftpb.IsEmptyState")
+	if replay == nil || setState == nil || readRS == nil || isEmpty == nil {
+		return
+	}
+	n := 0
+	for _, s := range e.MethodSitesIn(replay, readRS) {
+		c, ok := s.(*ssa.Call)
+		if !ok {
+			continue
+		}
+		n++
+		res := e.pathUnless(replay, c, func(in ssa.Instruction) bool { return e.isSuccessReturn(in) }, func(in ssa.Instruction) bool {
+			cc, ok := in.(*ssa.Call)
+			return ok && e.CallsTo(cc, setState)
+		}, reqAny("the stored state is empty, or ReadRaftState failed",
+			reqBool("", e.callV(isEmpty), true),
+			Req{Name: "err", Has: func(fs []Fact) bool {
+				for _, f := range fs {
+					// any test of ReadRaftState's error (sentinel or nil) that says "failed"
+					if cc, idx, kind, pol := calleeFact(f); cc == c && kind == "nil" && !pol && idx == 1 {
+						return true
+					}
+					if call, ok := f.V.(*ssa.Call); ok && f.Pol {
+						for _, a := range call.Call.Args {
+							if ex, ok := stripChangeInterface(a).(*ssa.Extract); ok && ex.Tuple == ssa.Value(c) && ex.Index == 1 {
+								return true // errors.Is(err, ...) is true
+							}
+						}
+					}
+				}
+				return false
+			}}))
+		r.check(!res.Found, "MPT-replay-sets-state", "replayLog hands the persisted hard state to the log reader", e.ipos(s),
+			"every successful path with a non-empty stored state calls LogReader.SetState", "replayLog can return successfully with a non-empty persisted state that never reaches the log reader: the replica restarts without its term and vote", res.Trace(e)...)
+	}
+	r.floor("MPT-replay-sets-state", n, 1)
+}
+
+// ruleSnapshotRecordKeepsLogEnd (C04, C09): recording a locally generated
+// snapshot (ILogDB.SaveSnapshots) does not touch the max-index record: the
+// snapshot is taken from the applied state, the log continues past it.
+func ruleSnapshotRecordKeepsLogEnd(e *Engine, r *Report) {
+	ss := r.need("(*internal/logdb.db).saveSnapshots")
+	smi := r.need("(*internal/logdb.db).setMaxIndex")
+	if ss == nil || smi == nil {
+		return
+	}
+	reach := e.Reach([]*ssa.Function{ss}, nil)
+	r.check(!reach[smi], "WMC-maxindex-writers", "db.setMaxIndex is not reachable from db.saveSnapshots", e.pos(ss.Pos()),
+		"the logical end of the log is unchanged by a local snapshot record", "recording a local snapshot now rewrites the max-index record: entries persisted beyond the snapshot index are no longer returned after a restart")
+}
+
+// ruleRemoveNodeDataOrder (C09): the metadata of a removed replica (state,
+// bootstrap, max index, snapshots) is deleted durably before its entries
+// are: a crash in between must not leave a max-index record that claims
+// entries which no longer exist.
+func ruleRemoveNodeDataOrder(e *Engine, r *Report) {
+	rnd := r.need("(*internal/logdb.db).removeNodeData")
+	ret := r.need("(*internal/logdb.db).removeEntriesTo")
+	commit := r.needMethod("internal/logdb/kv", "IKVStore", "CommitWriteBatch")
+	if rnd == nil || ret == nil || commit == nil {
+		return
+	}
+	n := 0
+	isCommit := func(in ssa.Instruction) bool {
+		c, ok := in.(*ssa.Call)
+		return ok && e.IsMethodCall(c, commit)
+	}
+	for _, s := range e.SitesIn(rnd, ret) {
+		n++
+		o, _ := e.alwaysPrecededBy(s.(ssa.Instruction), isCommit, 0)
+		okErr := true
+		for _, cs := range e.MethodSitesIn(rnd, commit) {
+			if cc, ok := cs.(*ssa.Call); ok && e.reachableFromErrEdgeOf(rnd, cc, s.(ssa.Instruction)) {
+				okErr = false
+			}
+		}
+		r.check(o && okErr, "MPT-remove-order", "removeNodeData deletes the entries only after the metadata batch was committed", e.ipos(s),
+			"metadata (max index included) goes first", "the entries of a removed replica can be deleted before (or without) the committed metadata batch: after a crash the max-index record claims entries that no longer exist")
+	}
+	r.floor("MPT-remove-order", n, 1)
+}
+
+// ruleTanCompactionUpdate (C09): the marker record written by a Tan
+// compaction carries a pseudo state (commit = compacted-to index, reserved
+// term): it only moves the compaction watermarks and never re-points the
+// node's entries, snapshot or state index.
+func ruleTanCompactionUpdate(e *Engine, r *Report) {
+	ui := r.need("(*internal/tan.db).updateIndex")
+	isCU := r.need("internal/tan.isCompactionUpdate")
+	if ui == nil || isCU == nil {
+		return
+	}
+	notCompaction := reqBool("not a compaction marker (isCompactionUpdate is false)", func(v ssa.Value) bool {
+		ex, ok := v.(*ssa.Extract)
+		if !ok || ex.Index != 1 {
+			return false
+		}
+		c, ok := ex.Tuple.(*ssa.Call)
+		return ok && e.CallsTo(c, isCU)
+	}, false)
+	n := 0
+	niT := e.Named("internal/tan", "nodeIndex")
+	e.forEachInstrRegion(ui, 0, func(in ssa.Instruction) {
+		switch x := in.(type) {
+		case *ssa.Store:
+			f, _, ok := fieldOfAddr(x.Addr)
+			if !ok || niT == nil {
+				return
+			}
+			if f.Name() != "state" && f.Name() != "snapshot" {
+				return
+			}
+			if fa, ok := x.Addr.(*ssa.FieldAddr); !ok || !isPtrToNamed(fa.X.Type(), niT) {
+				return
+			}
+			n++
+			r.guard("GD-tan-compaction-marker", "nodeIndex."+f.Name()+" re-pointed in "+fname(in.Parent()), in, notCompaction)
+		case *ssa.Call:
+			sc := x.Call.StaticCallee()
+			if sc == nil || sc.Name() != "update" || sc.Signature.Recv() == nil || !strings.HasSuffix(recvTypeName(sc.Signature.Recv().Type()), "tan.index") {
+				return
+			}
+			n++
+			r.guard("GD-tan-compaction-marker", "index.update (entries) in "+fname(in.Parent()), in, notCompaction)
+		}
+	})
+	r.floor("GD-tan-compaction-marker", n, 3)
+}
+
+func isPtrToNamed(t types.Type, n *types.Named) bool {
+	p, ok := t.(*types.Pointer)
+	if !ok {
+		return false
+	}
+	return types.Identical(p.Elem(), n)
+}
+
+// ruleBootstrapSorted (C02, C07): the bootstrap entries are generated from
+// the member list in one canonical (sorted) order: the list every loop of
+// bootstrap walks is the one that was sorted.
+func ruleBootstrapSorted(e *Engine, r *Report) {
+	bs := r.need("internal/raft.bootstrap")
+	if bs == nil {
+		return
+	}
+	var sorted ssa.Value
+	forEachCall(bs, func(c ssa.CallInstruction) {
+		sc := c.Common().StaticCallee()
+		if sc == nil || sc.Pkg == nil || sc.Pkg.Pkg.Path() != "sort" || len(c.Common().Args) == 0 {
+			return
+		}
+		if mi, ok := c.Common().Args[0].(*ssa.MakeInterface); ok {
+			sorted = mi.X
+		}
+	})
+	if !r.check(sorted != nil, "DET-bootstrap-sorted", "bootstrap sorts the member list", e.pos(bs.Pos()), "sorted by replica id", "bootstrap no longer sorts the member list: initial members generate their bootstrap entries in different orders") {
+		return
+	}
+	n := 0
+	forEachInstr(bs, func(in ssa.Instruction) {
+		ia, ok := in.(*ssa.IndexAddr)
+		if !ok || !types.Identical(ia.X.Type(), sorted.Type()) {
+			return
+		}
+		n++
+		sameVar := ia.X == sorted
+		if a, ok := ia.X.(*ssa.UnOp); ok {
+			if b, ok := sorted.(*ssa.UnOp); ok && a.X == b.X {
+				if _, isAlloc := a.X.(*ssa.Alloc); isAlloc {
+					sameVar = true
+				}
+			}
+		}
+		r.check(sameVar, "DET-bootstrap-sorted", "bootstrap walks the sorted member list #"+itoa(n), e.ipos(in),
+			"entries and membership are generated in the canonical order", "bootstrap walks a member list that is not the one it sorted: replicas whose callers pass the members in different orders write different entries at the same index")
+	})
+	r.floor("DET-bootstrap-sorted", n, 2)
 }
